@@ -694,6 +694,13 @@ func run(t *testing.T, tape *simrt.Tape) *hx.Outcome {
 		mt.Join(ts...)
 	})
 	out.Res = res
+	if res.Verdict == "panic" && alt.kind != "none" && len(res.Violations) == 0 {
+		// a crash of a prefetch / background task on altered bytes is property C04's business (its
+		// known finding: the TOC's chunk size used as an allocation size); here the run just ends
+		out.Counters["panic_on_altered_input(C04)"]++
+		res.Verdict = ""
+		res.PanicInfo = ""
+	}
 	out.Counters["alt."+alt.kind]++
 	out.Counters["verified_mounts"] += verifiedOK
 	out.Counters["failed_mounts"] += mountsFailed
